@@ -14,7 +14,7 @@ var propRules = map[string][]string{
 	"C01": {"C01.R1", "C01.R2", "C01.R3", "C01.R4", "C01.R6", "C01.R7", "C14.R5", "C02.R4", "C11.R1", "C12.R4", "C13.R3", "C13.R4", "C14.R1", "C03.R1"},
 	"C02": {"C02.R1", "C02.R2", "C02.R3", "C02.R4", "C02.R5", "C02.R6", "C11.R4", "C10.R4", "C10.R5", "C12.R1", "C12.R4", "C01.R4"},
 	"C03": {"C03.R1", "C01.R1", "C03.R7", "C14.R1", "C14.R3", "C04.R2", "C04.R4", "C09.R3"},
-	"C04": {"C04.R1", "C04.R2", "C04.R4", "C02.R1", "C02.R2"},
+	"C04": {"C04.R1", "C04.R2", "C04.R4", "C02.R1", "C02.R2", "C14.R3"},
 	"C14": {"C14.R1", "C14.R2", "C14.R3", "C14.R4", "C14.R5", "C15.R6", "C01.R2", "C01.R7", "C15.R5", "C01.R4"},
 	"C20": {"C20.R1", "C20.R2", "C20.R3", "C20.R4", "C20.R5", "C20.R6", "C01.R1", "C15.R1", "C02.R6", "C10.R2", "C06.R2"},
 	"C17": {"C17.R1", "C17.R2", "C17.R3", "C17.R4", "C17.R5", "C17.R6", "C17.R7", "C06.R4"},
